@@ -39,6 +39,13 @@ def table(F):
     return tb.Table(F, "C12", "CaoHashMap", "collections::hash_map", ("u64",), None, None)
 
 
+def _table_cached(F):
+    t = getattr(F, "_c12_table", None)
+    if t is None:
+        t = F._c12_table = table(F)
+    return t
+
+
 def rule_r(F):
     return tb.rule_pairing(table(F), "R")
 
@@ -275,6 +282,13 @@ def rule_w(F):
                 if st["k"] == "assign" and st["rv"]["k"] == "use" and st["rv"]["op"].get("k") == "const" and st["rv"]["op"].get("val") == 0 \
                         and any(e["k"] in ("deref", "index") for e in st["place"]["p"]) and "u64" in str(st["rv"]["op"].get("ty", "u64")):
                     zeroes = True
+        if drops and not zeroes and not f.is_closure:
+            # the slot may be emptied by a private function of the map that this one calls (`self.close_hole(i)`)
+            T = _table_cached(F)
+            for h, _call in (tb.direct_callees(T, f) if f.hir else []):
+                if any(w["kind"] == "vacate" and not w["in_loop"] for w in T.slot_writes(h)):
+                    zeroes = True
+                    break
         if not drops or zeroes:
             continue
         fname = (f.root or f.short).rsplit("::", 1)[-1]
@@ -348,41 +362,12 @@ def rule_z(F):
 
 def rule_b(F):
     """back-shift: the single-slot removal contains a loop that moves entries (itself or in a private function it calls),
-    and the EMPTY write happens after it, on the final hole"""
-    res = []
+    and the EMPTY write happens after it, on the final hole (cao/tables.py rule_backshift)"""
     T = table(F)
-    f = T.fn("remove_with_hint")
-    ws = T.slot_writes(f)
-    vac = [w for w in ws if w["kind"] == "vacate" and not w["in_loop"]]
-    if not vac:
+    res = tb.rule_backshift(T, F, "B", "backshift", power_of_two=False)
+    if not res:
+        f = T.fn("remove_with_hint")
         res.append(undecided("C12.B", "C12/B/remove_with_hint/backshift", f.loc(), "no single-slot vacate found"))
-        return res
-    g, call = tb.shifting_function(T, f)
-    if g is None:
-        res.append(bad("C12.B", "C12/B/remove_with_hint/backshift", f.loc(vac[0]["expr"]["ln"]),
-                       "removal empties a slot without moving the following entries of the probe chain back (no back-shift loop, no tombstone): "
-                       "keys that probed past the removed slot become unreachable"))
-        return res
-    never_emptied = ("the back-shift loop copies the hash of a following entry into the hole but the slot it was moved from is never marked "
-                     "EMPTY: the entry stays visible twice (its stale copy holds a key that was dropped and a value that was moved out)")
-    if g is f:
-        # the hole that remains after shifting must be emptied: some EMPTY write must come after the loop in source order
-        loops = [x for x in hir_walk(f.hir["body"]) if x.get("k") == "loop"]
-        last_loop_ln = max(hu_end_line(l) for l in loops)
-        after = [w for w in vac if w["expr"]["ln"] > last_loop_ln]
-        if after:
-            res.append(ok("C12.B", "C12/B/remove_with_hint/backshift", f.loc(after[0]["expr"]["ln"]), "back-shift loop followed by emptying the final hole"))
-        else:
-            res.append(bad("C12.B", "C12/B/remove_with_hint/backshift", f.loc(vac[0]["expr"]["ln"]), never_emptied))
-    else:
-        after = [w for w in vac if w["expr"]["ln"] >= hu_end_line(call)]
-        if not after:
-            res.append(bad("C12.B", "C12/B/remove_with_hint/backshift", f.loc(vac[0]["expr"]["ln"]), never_emptied))
-        else:
-            status, msg, ln = tb.final_hole_verdict(T, f, g, call, after)
-            mk = {"ok": ok, "bad": bad, "undecided": undecided}[status]
-            res.append(mk("C12.B", "C12/B/remove_with_hint/backshift", f.loc(ln), msg))
-    res.extend(backshift_instances(g, "C12.B", "C12/B/remove_with_hint", power_of_two=False, F=F, slot_tys=T.slot_tys))
     return res
 
 
